@@ -16,6 +16,10 @@ import (
 type Rng struct {
 	S   uint64
 	big int // how many more arrays of this document may be large
+	// wide: this document's two-level arrays (nested, grid) are large at the first, the
+	// second or both levels
+	wide1, wide2 bool
+	bigField     string // the array that is certainly large in this document ("" = none)
 }
 
 func (r *Rng) Next() uint64 {
@@ -40,14 +44,21 @@ func (r *Rng) Pick(xs []string) string  { return xs[r.Intn(len(xs))] }
 const CanonicalDoc = `{"nums":[3,1,2,2,-5,10.5],"strs":["b","a","c","a","é"],` +
 	`"objs":[{"k":3,"s":"c","t":[1]},{"k":1,"s":"a","t":[2,3]},{"k":2,"s":"b","t":[]},{"k":1,"s":"a2","t":null}],` +
 	`"mixed":[{"k":1},{"k":"x"},{"k":2},{"k":0}],"mixeds":[{"k":"b"},{"k":"a"},{"k":1},{"k":"c"}],` +
-	`"sparse":[1,null,2,null,null,3,"a",null],"sparseobjs":[{"k":1},null,{"k":2,"t":null},null],"nested":[[1,2],[3],[],[4,[5]]],"grid":[[{"k":2,"s":"b","t":[1]},{"k":1,"s":"a","t":[]}],[{"k":3,"s":"c","t":[2,3]}],[]],` +
+	`"sparse":[1,null,2,null,null,3,"a",null],"sparseobjs":[{"k":1},null,{"k":2,"t":null},null],"recs":[{"v":[3,1],"u":"b","w":2},{"v":[],"u":"a","w":null},{"v":[2],"u":"c","w":1},{"v":[],"u":"d","w":5}],"nested":[[1,2],[3],[],[4,[5]]],"grid":[[{"k":2,"s":"b","t":[1]},{"k":1,"s":"a","t":[]}],[{"k":3,"s":"c","t":[2,3]}],[]],` +
 	`"tree":{"name":"r","kids":[{"name":"a","kids":[{"name":"b","kids":[]}]},{"name":"c","kids":[]}]},"o1":{"a":1,"b":{"c":[1,2]}},"o2":{"b":2,"z":[9]},"o3":{"a":{"x":1},"b":{"c":[9],"d":{"e":{"f":1}},"g":{"h":2}},"m0":{"p":{"q":1}}},` +
 	`"s":"héllo","n":-3.5,"t":true,"z":null,"e":[],"eo":{}}`
+
+func arrLenF(r *Rng, field string) int {
+	if field != "" && field == r.bigField {
+		return bigLen(r)
+	}
+	return arrLen(r)
+}
 
 func arrLen(r *Rng) int {
 	if r.big > 0 && r.Chance(1, 3) {
 		r.big--
-		return 64 + r.Intn(340) // past the size thresholds of small-vector / big-input code paths
+		return bigLen(r) // past the size thresholds of small-vector / big-input code paths
 	}
 	switch r.Intn(10) {
 	case 0:
@@ -65,6 +76,16 @@ func arrLen(r *Rng) int {
 	default:
 		return 21 + r.Intn(14)
 	}
+}
+
+// bigLen: a length just past one of the thresholds at which implementations switch
+// strategy (powers of two and round numbers), or anywhere in 64..400.
+func bigLen(r *Rng) int {
+	if r.Chance(1, 2) {
+		return 64 + r.Intn(340)
+	}
+	t := []int{32, 64, 100, 128, 256, 512, 1000, 1024}[r.Intn(8)]
+	return t + r.Intn(t/8+2)
 }
 
 func num(r *Rng) float64 {
@@ -93,16 +114,52 @@ func str(r *Rng) string {
 }
 
 // Doc generates a document with the canonical schema and seeded shapes.
-func Doc(r *Rng) string {
+func Doc(r *Rng) string { return DocFor(r, "") }
+
+// DocFor draws a document for the expression(s) in hint: one time in five an array that the
+// hint mentions is made large (a flat one certainly large, a two-level one wide), so that
+// size-dependent paths are reached by the expressions that walk those arrays and not only
+// when two independent rare draws coincide.
+func DocFor(r *Rng, hint string) string {
 	if r.Chance(1, 8) {
 		return CanonicalDoc
 	}
-	r.big = 0
+	r.big, r.wide1, r.wide2, r.bigField = 0, false, false, ""
+	forceWide := false
+	if hint != "" && r.Chance(1, 5) {
+		var cands []string
+		for _, f := range []string{"nums", "strs", "objs", "recs", "nested", "grid"} {
+			if strings.Contains(hint, f) {
+				cands = append(cands, f)
+			}
+		}
+		if len(cands) > 0 {
+			f := cands[r.Intn(len(cands))]
+			if f == "nested" || f == "grid" {
+				forceWide = true
+			} else {
+				r.bigField = f
+			}
+		}
+	}
 	if r.Chance(1, 20) {
 		r.big = 1 // one document in twenty has one array of 64-400 elements
+	} else if r.Chance(1, 40) {
+		r.big = 2
+	}
+	if forceWide || r.Chance(1, 50) {
+		// two-level arrays: many short lists, few long lists, or (rarely) both levels long
+		switch r.Intn(5) {
+		case 0, 1:
+			r.wide1 = true
+		case 2, 3:
+			r.wide2 = true
+		default:
+			r.wide1, r.wide2 = true, true
+		}
 	}
 	d := map[string]interface{}{}
-	n := arrLen(r)
+	n := arrLenF(r, "nums")
 	nums := make([]interface{}, n)
 	for i := range nums {
 		nums[i] = num(r)
@@ -118,13 +175,13 @@ func Doc(r *Rng) string {
 		}
 	}
 	d["nums"] = nums
-	n = arrLen(r)
+	n = arrLenF(r, "strs")
 	strs := make([]interface{}, n)
 	for i := range strs {
 		strs[i] = str(r)
 	}
 	d["strs"] = strs
-	n = arrLen(r)
+	n = arrLenF(r, "objs")
 	objs := make([]interface{}, n)
 	sortedK := r.Chance(1, 6)
 	for i := range objs {
@@ -184,8 +241,28 @@ func Doc(r *Rng) string {
 	}
 	d["mixeds"] = mixeds
 	n = arrLen(r) % 8
+	if r.wide1 {
+		n = bigLen(r) % 300
+	} else if r.wide2 && n == 0 {
+		n = 2
+	}
 	nested := make([]interface{}, n)
 	for i := range nested {
+		if r.wide1 || r.wide2 {
+			m := 1 + r.Intn(4)
+			if r.wide2 {
+				m = bigLen(r) % 300
+				if r.wide1 && n*m > 20000 {
+					m = 20000 / n // both levels long: keep one evaluation inside the step budget
+				}
+			}
+			t := make([]interface{}, m)
+			for j := range t {
+				t[j] = num(r)
+			}
+			nested[i] = t
+			continue
+		}
 		switch r.Intn(5) {
 		case 0:
 			nested[i] = []interface{}{}
@@ -225,6 +302,25 @@ func Doc(r *Rng) string {
 		}
 	}
 	d["sparseobjs"] = so
+	// recs: records whose members are well-typed, with "nothing there" in some of them
+	// (empty list, null number): per-element results are null for some elements and
+	// values for the others, and a fault document makes exactly one element fail
+	n = arrLenF(r, "recs")
+	recs := make([]interface{}, n)
+	for i := range recs {
+		v := make([]interface{}, r.Intn(4))
+		for j := range v {
+			v[j] = num(r)
+		}
+		rec := map[string]interface{}{"v": v, "u": str(r)}
+		if r.Chance(1, 3) {
+			rec["w"] = nil
+		} else {
+			rec["w"] = num(r)
+		}
+		recs[i] = rec
+	}
+	d["recs"] = recs
 	mkObj := func() interface{} {
 		t := make([]interface{}, r.Intn(3))
 		for j := range t {
@@ -232,9 +328,19 @@ func Doc(r *Rng) string {
 		}
 		return map[string]interface{}{"k": num(r), "s": str(r), "t": t}
 	}
-	grid := make([]interface{}, 1+r.Intn(4))
+	gn := 1 + r.Intn(4)
+	if r.wide1 {
+		gn = bigLen(r) % 200
+	}
+	grid := make([]interface{}, gn)
 	for i := range grid {
-		row := make([]interface{}, r.Intn(5))
+		rn := r.Intn(5)
+		if r.wide2 && !r.wide1 {
+			rn = bigLen(r) % 200
+		} else if r.wide2 {
+			rn = 30 + r.Intn(12)
+		}
+		row := make([]interface{}, rn)
 		for j := range row {
 			row[j] = mkObj()
 		}
@@ -759,9 +865,26 @@ func Expr(r *Rng) string {
 	return exprInner(r)
 }
 
+// RecsExprs: per-element results over the well-typed records are null for some elements
+// and values for others; on a fault document one element fails.
+var RecsExprs = []string{
+	"recs[*].max(v)", "recs[*].min(v)", "recs[*].w", "recs[*].v[0]", "recs[*].v[-1]", "recs[*].[w, u]", "recs[*].sum(v)", "recs[?w].u", "recs[*].not_null(w)", "recs[*].not_null(w, v[0])",
+	"sort_by(recs, &u)[*].w", "recs[*].sort(v)", "recs[*].sort(v)[0]", "max_by(recs, &u)", "recs[].v[]", "recs[*].v[*].abs(@)", "recs[*].abs(w || `0`)", "recs[*].(w && abs(w))", "recs[*].v[?@ > `1`]",
+	"recs[*].{m: max(v), u: u}", "recs[*].v | [*][0]", "recs[*].max(v) | length(@)", "recs[*].w | [0]", "recs[?max(v) > `1`].u", "recs[?w > `1`].v[]", "recs[*].length(v)", "recs[*].reverse(v)[0]",
+	"recs[*].to_number(u)", "recs[*].max([w, `0`][?@])", "recs[::2].w", "recs[::-1].max(v)", "recs[1:].v[0]", "map(&max(v), recs)", "map(&w, recs)", "recs[*].v[1:] | [*][0]", "sort_by(recs, &length(v))[*].w",
+	"nested[*][*]", "nested[*][*].abs(@)", "nested[*].max(@)", "nested[*].sort(@)", "nested[*].length(@)", "nested[*][0]", "nested[*][-1]", "nested[] | length(@)", "nested[*][?@ > `2`]", "grid[*][*].t[0]", "grid[*][*].max(t)",
+}
+
 func exprInner(r *Rng) string {
 	if r.Chance(1, 4) {
 		return Chain(r)
+	}
+	if r.Chance(1, 9) {
+		e := r.Pick(RecsExprs)
+		if r.Chance(1, 4) {
+			e = e + " | " + r.Pick([]string{"[0]", "[-1]", "length(@)", "@", "[@, @]", "to_array(@)", "[?@]"})
+		}
+		return e
 	}
 	if r.Chance(1, 8) {
 		return ConstEmbed(r)
@@ -821,6 +944,7 @@ func Systematic() []string {
 		"sort_by(`[[1],[\"a\"],[2]]`, &sum(@))", "max_by(`[[1],[\"a\"],[2]]`, &sum(@))", "min_by(`[[1],[\"a\"],[2]]`, &sum(@))", "to_string(avg(e))", "to_string([avg(e)])",
 		"max_by(strs, &@)", "min_by(strs, &@)", "max_by(mixeds, &length(k))", "sort_by(mixeds, &length(k))",
 	}
+	base = append(base, RecsExprs...)
 	var out []string
 	seen := map[string]bool{}
 	add := func(e string) {
